@@ -2,6 +2,7 @@ package h
 
 import (
 	"bufio"
+	"hash/fnv"
 	"encoding/json"
 	"flag"
 	"fmt"
@@ -299,8 +300,22 @@ func WorkerLoop(p *Plan, prop string, seed uint64, shard, nshard int, out string
 		rep.Violations = append(rep.Violations, t)
 		return len(rep.Violations) >= 3
 	}
+	// determinism self-test support: cap the runs and write one digest line per run
+	var digest *os.File
+	if dp := os.Getenv("VERIF_DIGEST"); dp != "" {
+		digest, _ = os.OpenFile(dp, os.O_APPEND|os.O_CREATE|os.O_WRONLY, 0o644)
+		defer digest.Close()
+	}
+	if mr := os.Getenv("VERIF_MAXRUNS"); mr != "" {
+		if n, err := strconv.Atoi(mr); err == nil {
+			p.Runs, p.Exh = n, 0
+			budget = time.Hour
+		}
+	}
+	var runSigs []string
 	stop := false
 	st.Report = func(t *Trace, v *Violation) bool {
+		runSigs = append(runSigs, v.Sig)
 		if handle(t, v) {
 			stop = true
 		}
@@ -330,8 +345,27 @@ func WorkerLoop(p *Plan, prop string, seed uint64, shard, nshard int, out string
 		}
 		t := p.Gen(seed, run)
 		st.Runs++
-		if v := Execute(p, t, st); v != nil {
+		e0, s0 := st.Evals, st.Steps
+		runSigs = runSigs[:0]
+		tj, _ := jsonOf(t)
+		v := Execute(p, t, st)
+		if v != nil {
+			runSigs = append(runSigs, v.Sig)
 			stop = handle(t, v)
+		}
+		if digest != nil {
+			h := fnv.New64a()
+			h.Write([]byte(tj))
+			extra := ""
+			if t.Sched != nil {
+				extra = fmt.Sprint(" picks=", len(t.Sched.Picks), ":", hashInts(t.Sched.Picks))
+			}
+			sort.Strings(runSigs)
+			fmt.Fprintf(digest, "seed=%d run=%d trace=%016x evals=%d steps=%d sigs=%v%s\n", seed, run, h.Sum64(), st.Evals-e0, st.Steps-s0, runSigs, extra)
+		}
+		if digest != nil {
+			stop = false
+			rep.Violations = nil
 		}
 	}
 	for _, k := range known {
@@ -593,3 +627,12 @@ func Replay(prop, path string) int {
 
 // SelfTest is filled in by selftest.go.
 var SelfTest = func() int { fmt.Println("selftest: not built"); return 2 }
+
+
+func hashInts(xs []int) string {
+	h := fnv.New64a()
+	for _, x := range xs {
+		h.Write([]byte{byte(x), byte(x >> 8)})
+	}
+	return fmt.Sprintf("%016x", h.Sum64())
+}
